@@ -67,29 +67,162 @@ type CtxV struct {
 
 type ctxKV struct{ k, v Val }
 
+// MultiStore: a root multistore holds the data; a cache multistore (CacheContext) is a
+// write-back layer over its parent: reads fall through to the parent's *current* contents for
+// keys the layer has not written or deleted, Write() applies the layer's operations to the parent
+// in order (cachekv semantics, including writes made to the parent while the layer is live).
 type MultiStore struct {
 	stores map[string]*Store
+	parent *MultiStore
 }
 
 func (ms *MultiStore) get(name string) *Store {
 	s, ok := ms.stores[name]
 	if !ok {
 		s = &Store{}
+		if ms.parent != nil {
+			s.parent = ms.parent.get(name)
+			s.viewVer = -1
+		}
 		ms.stores[name] = s
 	}
 	return s
 }
 
-func (ms *MultiStore) clone() *MultiStore {
+// snapshot: a detached root copy of the current effective contents.
+func (ms *MultiStore) snapshot(ex *Exec) *MultiStore {
 	n := &MultiStore{stores: map[string]*Store{}}
-	for k, s := range ms.stores {
-		n.stores[k] = &Store{entries: append([]storeEntry{}, s.entries...)}
+	for m := ms; m != nil; m = m.parent {
+		for k := range m.stores {
+			if _, done := n.stores[k]; !done {
+				n.stores[k] = &Store{entries: append([]storeEntry{}, ms.get(k).view(ex)...)}
+			}
+		}
 	}
 	return n
 }
 
+// layer: a new cache layer over ms.
+func (ms *MultiStore) layer() *MultiStore {
+	return &MultiStore{stores: map[string]*Store{}, parent: ms}
+}
+
+// write applies every store's pending operations to the parent layer and clears them.
+func (ms *MultiStore) write(ex *Exec) {
+	if ms.parent == nil {
+		return
+	}
+	names := make([]string, 0, len(ms.stores))
+	for k := range ms.stores {
+		names = append(names, k)
+	}
+	sort.Strings(names)
+	for _, k := range names {
+		s := ms.stores[k]
+		for _, op := range s.ops {
+			if op.del {
+				s.parent.del(ex, op.key)
+			} else {
+				s.parent.put(ex, op.key, op.val)
+			}
+		}
+		s.ops = nil
+		s.viewVer = -1
+	}
+}
+
+type storeOp struct {
+	key []*Term
+	val Val
+	del bool
+}
+
 type Store struct {
-	entries []storeEntry
+	entries []storeEntry // root: the data; layer: materialised view (valid while viewVer == parent.version())
+	parent  *Store
+	ops     []storeOp // layer only: writes and deletes since creation / the last Write, in order
+	ver     int       // bumped on every mutation of this layer
+	viewVer int
+}
+
+func (st *Store) version() int {
+	if st.parent == nil {
+		return st.ver
+	}
+	return st.ver + st.parent.version()
+}
+
+// view returns the effective entries (pairwise distinct keys under the path condition).
+func (st *Store) view(ex *Exec) []storeEntry {
+	if st.parent == nil {
+		return st.entries
+	}
+	if pv := st.parent.version(); st.viewVer != pv {
+		cur := append([]storeEntry{}, st.parent.view(ex)...)
+		for _, op := range st.ops {
+			i := findEntry(ex, cur, op.key)
+			switch {
+			case op.del && i >= 0:
+				cur = append(cur[:i:i], cur[i+1:]...)
+			case !op.del && i >= 0:
+				cur[i] = storeEntry{key: op.key, val: op.val}
+			case !op.del:
+				cur = append(cur, storeEntry{key: op.key, val: op.val})
+			}
+		}
+		st.entries = cur
+		st.viewVer = st.parent.version()
+	}
+	return st.entries
+}
+
+func findEntry(ex *Exec, es []storeEntry, key []*Term) int {
+	for i := range es {
+		if len(es[i].key) != len(key) {
+			continue
+		}
+		if ex.Branch(ex.bytesEq(es[i].key, key)) {
+			return i
+		}
+	}
+	return -1
+}
+
+func (st *Store) put(ex *Exec, key []*Term, v Val) {
+	cur := st.view(ex)
+	i := findEntry(ex, cur, key)
+	ne := append([]storeEntry{}, cur...)
+	if i >= 0 {
+		ne[i] = storeEntry{key: key, val: v}
+	} else {
+		ne = append(ne, storeEntry{key: key, val: v})
+	}
+	st.entries = ne
+	if st.parent != nil {
+		st.ops = append(st.ops, storeOp{key: key, val: v})
+	}
+	st.ver++
+	if st.parent != nil {
+		st.viewVer = st.parent.version()
+	}
+}
+
+func (st *Store) del(ex *Exec, key []*Term) {
+	cur := st.view(ex)
+	i := findEntry(ex, cur, key)
+	if i >= 0 {
+		ne := append([]storeEntry{}, cur[:i]...)
+		ne = append(ne, cur[i+1:]...)
+		st.entries = ne
+	}
+	if st.parent != nil {
+		// recorded even when the key is currently absent: the parent may gain it before Write
+		st.ops = append(st.ops, storeOp{key: key, del: true})
+	}
+	st.ver++
+	if st.parent != nil {
+		st.viewVer = st.parent.version()
+	}
 }
 
 type storeEntry struct {
@@ -136,13 +269,7 @@ func (ex *Exec) storeValToVal(v Val) Val {
 }
 
 func (h *StoreHandle) find(ex *Exec, key []*Term) int {
-	st := h.st()
-	for i := range st.entries {
-		if ex.Branch(ex.bytesEq(st.entries[i].key, key)) {
-			return i
-		}
-	}
-	return -1
+	return findEntry(ex, h.st().view(ex), key)
 }
 
 func (h *StoreHandle) Invoke(ex *Exec, m string, a []Val) Val {
@@ -152,7 +279,7 @@ func (h *StoreHandle) Invoke(ex *Exec, m string, a []Val) Val {
 		if i < 0 {
 			return SliceV{Nil: true}
 		}
-		return ex.storeValToVal(h.st().entries[i].val)
+		return ex.storeValToVal(h.st().view(ex)[i].val)
 	case "Has":
 		return ex.tf.Bool(h.find(ex, h.fullKey(ex, a[0])) >= 0)
 	case "Set":
@@ -169,25 +296,10 @@ func (h *StoreHandle) Invoke(ex *Exec, m string, a []Val) Val {
 		default:
 			panic(engineErr(fmt.Sprintf("store.Set value %T", a[1])))
 		}
-		i := h.find(ex, key)
-		st := h.st()
-		if i >= 0 {
-			ne := append([]storeEntry{}, st.entries...)
-			ne[i] = storeEntry{key: key, val: v}
-			st.entries = ne
-		} else {
-			st.entries = append(append([]storeEntry{}, st.entries...), storeEntry{key: key, val: v})
-		}
+		h.st().put(ex, key, v)
 		return nil
 	case "Delete":
-		key := h.fullKey(ex, a[0])
-		i := h.find(ex, key)
-		if i >= 0 {
-			st := h.st()
-			ne := append([]storeEntry{}, st.entries[:i]...)
-			ne = append(ne, st.entries[i+1:]...)
-			st.entries = ne
-		}
+		h.st().del(ex, h.fullKey(ex, a[0]))
 		return nil
 	case "Iterator", "ReverseIterator":
 		var start, end []*Term
@@ -223,7 +335,7 @@ type IterObj struct {
 func (h *StoreHandle) iterate(ex *Exec, start, end []*Term, hasEnd bool) *IterObj {
 	st := h.st()
 	var items []storeEntry
-	for _, e := range st.entries {
+	for _, e := range st.view(ex) {
 		if len(e.key) < len(h.prefix) {
 			continue
 		}
@@ -494,7 +606,7 @@ func init() {
 			gas: &GasMeterObj{infinite: true, limit: ex.tf.BVu(0, 64), consumed: ex.tf.BVu(0, 64)}, events: &EventMgrObj{}}
 	})
 	reg(rtPkg+"Snapshot", func(ex *Exec, a []Val) Val {
-		return PtrV{C: ex.newCell(&SnapObj{ms: ex.ctxArg(a[0]).ms.clone()})}
+		return PtrV{C: ex.newCell(&SnapObj{ms: ex.ctxArg(a[0]).ms.snapshot(ex)})}
 	})
 	reg(rtPkg+"SameState", func(ex *Exec, a []Val) Val {
 		snap := ex.load(a[1].(PtrV)).(*SnapObj)
@@ -640,13 +752,10 @@ func init() {
 	})
 	reg(C+"CacheContext", func(ex *Exec, a []Val) Val {
 		c := ex.ctxArg(a[0])
-		child := c.ms.clone()
-		parent := c.ms
+		child := c.ms.layer()
 		cc := c.with(func(n *CtxV) { n.ms = child; n.events = &EventMgrObj{} })
 		write := FuncV{Name: "writeCache", Native: func(ex *Exec, _ []Val) Val {
-			for k, s := range child.stores {
-				parent.stores[k] = &Store{entries: append([]storeEntry{}, s.entries...)}
-			}
+			child.write(ex)
 			return nil
 		}}
 		return TupleV{cc, write}
@@ -800,11 +909,12 @@ type SnapObj struct{ ms *MultiStore }
 // directly; a symbolic key forks on equality with each candidate.
 func (ex *Exec) sameState(a, b *MultiStore) *Term {
 	names := map[string]bool{}
-	for n := range a.stores {
-		names[n] = true
-	}
-	for n := range b.stores {
-		names[n] = true
+	for _, ms := range []*MultiStore{a, b} {
+		for m := ms; m != nil; m = m.parent {
+			for n := range m.stores {
+				names[n] = true
+			}
+		}
 	}
 	sorted := make([]string, 0, len(names))
 	for n := range names {
@@ -813,7 +923,7 @@ func (ex *Exec) sameState(a, b *MultiStore) *Term {
 	sort.Strings(sorted)
 	cs := []*Term{}
 	for _, n := range sorted {
-		ea, eb := a.get(n).entries, b.get(n).entries
+		ea, eb := a.get(n).view(ex), b.get(n).view(ex)
 		if len(ea) != len(eb) {
 			return ex.tf.F
 		}
